@@ -2,9 +2,14 @@
 
 Proof: lean/PGA/Props/C08.lean (models PGA/Model/Query.lean of pgradd/RINGParser/MolQueryRead.py and
 PGA/Model/Match.lean of pgradd/RDkitWrapper/MolQuery.py; denotation PGA/Spec/Embeds.lean).
-Tie: `Read(text).GetQueryMatches(mol)` (sorted) against the model driver fed with the implementation's own parse
-tree (harness/lib_ast.py) and the graph of `Chem.AddHs(mol)` (harness/lib_mol.py); the operator / bond-word /
-element tables through the translator (harness/gen/molquery.py).
+Tie: `Read(text).GetQueryMatches(mol)` (sorted) against the model driver along TWO paths, on every fragment: (a) the *text*
+path — text -> C09 parser model on the regenerated grammar (PGA/Model/RingParse.lean) -> bridge (PGA/Model/RingAstBridge.lean)
+-> reader model -> matcher model, which does not involve the implementation's parser at all; (b) the *tree* path — the
+implementation's own parse tree (harness/lib_ast.py) fed to the reader model.  The driver compares the two trees and the two
+queries structurally; both must agree with the implementation.  Extra random layouts of every random fragment go through
+the model's and the implementation's parser (tree and query must not depend on the layout).  The graph is that of
+`Chem.AddHs(mol)` (harness/lib_mol.py); the operator / bond-word / element tables and the grammar come through the
+translator (harness/gen/molquery.py, harness/gen/ring_grammar.py).
 Property oracle: implementation vs `lib_embeds.embeddings` (direct enumeration of the denotation, written from the
 property text on the generator's structured fragment).  Assumption check A-cand: RDKit's candidate list vs the
 model's enumerator on every case.
@@ -13,13 +18,19 @@ import os, json, io, contextlib, collections, base64
 from . import common
 from . import lib_mol, lib_ast, lib_ringgen_c08 as RG, lib_embeds as EM, lib_molgen_c08 as MG
 
-PROPS = ['PGA.Props.C08', 'PGA.Props.C08Cap']
-GEN = ['Chars', 'MolQuery']
+PROPS = ['PGA.Props.C08', 'PGA.Props.C08Cap', 'PGA.Props.C08Text']
+GEN = ['Chars', 'MolQuery', 'RingChars', 'RingGrammar']
 OBLIGATIONS = ['PGA.C08.' + t for t in [
     'C08_tab_ops', 'C08_tab_bondwords', 'C08_tab_cn', 'C08_words_as_reference',
     'C08_matches_iff_partial', 'C08_fragment_matches_iff_partial', 'C08_matches_nodup', 'C08_matches_iff_full_fails',
     'C08_cap_inactive', 'C08_capped_iff_partial', 'C08_truncated_sound', 'C08_capped_iff_full_fails',
-    'C08_read_wf', 'C08_alpha_read_partial', 'C08_alpha_matches_partial', 'C08_labels_irrelevant']]
+    'C08_read_wf', 'C08_read_only_ring_errors', 'C08_alpha_read', 'C08_alpha_read_full_holds', 'C08_alpha_matches', 'C08_labels_irrelevant',
+    # from the text on (parser model of C09 + bridge): PGA/Props/C08Text.lean
+    'C08_bridge_shape', 'C08_tab_rule_names', 'C08_text_never_aborts', 'C08_text_syntax_inside', 'C08_text_query_consumed',
+    'C08_text_read_wf', 'C08_text_matches_iff_partial', 'C08_matchText_sound_complete_partial', 'C08_same_tree_same_matches',
+    # layout (PGA/Proofs/RingLayout.lean: lock-step simulation of the engine; instantiated on the regenerated grammar)
+    'C08_tab_layout_enhanced', 'C08_layout_irrelevant_partial', 'C08_layout_read_partial']] + [
+    'PGA.Ring.eval_sim', 'PGA.Ring.parse_layout', 'PGA.Ring.checkLayout_sound']
 RULE = ('cases = (fragment, molecule) pairs. Fragments: bounded-exhaustive one- and two-atom fragments (every symbol '
         'class x suffix, x prefix, every legal molecule-prefix combination, every constraint form x negation x operator '
         'x number, every bond word) plus random grammar-directed fragments of 1..8 atoms with random layout and label '
@@ -39,7 +50,9 @@ ASSUMPTIONS = [
     'double bond (pinned by the test-suite), positive/negative = net charge of exactly +1/-1, radical suffixes leave the charge free',
 ]
 TRUSTED = ['modelled, not verified: MolQueryReader (MolQueryRead.py), MolQuery.GetQueryMatches and the constraint classes (MolQuery.py)',
-           'the parser (Parser.py / Grammar.py) is not part of this model: the tree comes from the implementation\'s own parser (C09 models it)',
+           'the parser (Parser.py / Grammar.py) is modelled by C09 (PGA/Model/RingParse.lean over the regenerated grammar table) and joined to the '
+           'reader model by PGA/Model/RingAstBridge.lean; every case is run from the text through that model as well as from the '
+           'implementation\'s own tree, so the implementation\'s parser is not trusted by this tie',
            'harness/lib_mol.py (graph extraction), harness/lib_ast.py (tree serialisation), harness/lib_embeds.py (oracle)']
 TECHNIQUE = 'Lean 4 proof over hand-written model + correspondence check + table translator'
 LEVEL_TEXT = ('Lean 4 theorems for every query (any number of atoms, bonds, constraints), every well-formed molecule graph and every '
@@ -50,8 +63,10 @@ LEVEL_TEXT = ('Lean 4 theorems for every query (any number of atoms, bonds, cons
               'on generated fragment x molecule pairs. A proof is the right level: the quantifier is over all fragments and molecules.')
 LEVEL_NOTE = ('Partial: T1 is proved under the guard "no * suffix" (finding FM1: the reader drops what * asks for; the full statement is '
               'kept and refuted in Lean) and the cap of 10 000 candidates is an explicit hypothesis (F30). Trusted: Lean kernel; RDKit as '
-              'graph provider and candidate enumerator (assumptions A-graph, A-cand, re-validated on every case); the parser (tree '
-              'taken from the real parser); the hand-written reference tables in PGA/Spec/Embeds.lean.')
+              'graph provider and candidate enumerator (assumptions A-graph, A-cand, re-validated on every case); the hand-written reference '
+              'tables in PGA/Spec/Embeds.lean. Layout independence is proved for gaps of two or more filler characters or '
+              'containing a newline / tab, and for leading / trailing filler (C08_layout_irrelevant_partial, any token sequence); turning a '
+              'single blank into another gap is stated (C08_layout_irrelevant_full), not proved, and exercised by the text path on random layouts.')
 
 EXC = None
 
@@ -260,6 +275,12 @@ def count_constructs(ctx, frag, tag):
             a = it[1]
             ctx.count('%s_sym_%s' % (tag, a['sym'] if a['sym'] in RG.CLASS_SYMS else ('lower' if a['sym'][0].islower() else 'element')))
             ctx.count('%s_suffix_%s' % (tag, a.get('suffix') or 'none'))
+            if a['label'] == 'AtomLabel':
+                ctx.count('%s_label_AtomLabel' % tag)
+                if a['bond'] and a['bond'][1] == 'AtomLabel':
+                    ctx.count('%s_bond_to_AtomLabel' % tag)
+            elif a['bond'] and a['bond'][1] == 'AtomLabel':
+                ctx.count('%s_bond_to_AtomLabel' % tag)
             if a.get('prefix'):
                 ctx.count('%s_prefix_%s' % (tag, a['prefix']))
             if a['bond']:
@@ -400,14 +421,31 @@ def check_pair(ctx, fc, ent, requests, selfcheck=True):
     return ok
 
 
+def cps(text):
+    return [ord(c) for c in text]
+
+
+def impl_syntax_pos(text):
+    from pgradd.RINGParser import Parser
+    from pgradd.Error import RINGSyntaxError
+    try:
+        Parser.parse(text)
+    except RINGSyntaxError as e:
+        return [e.lineno, e.colno]
+    except Exception:
+        return None
+    return None
+
+
 def run_model(ctx, requests, fcs):
-    """the tie: one driver batch per chunk of fragments"""
+    """the tie: one driver batch per chunk of fragments; every fragment travels as its text (parser model + bridge) and, when the
+    implementation's parser produced one, as the implementation's tree"""
     if not ctx.driver_ok:
         return
     by_frag = collections.OrderedDict()
     for r in requests:
         by_frag.setdefault(id(r[0]), []).append(r)
-    frs = [f for f in fcs if f.ast is not None]
+    frs = list(fcs)
     acand_bad = 0
     ncmp = 0
     for c0 in range(0, len(frs), 60):
@@ -420,25 +458,57 @@ def run_model(ctx, requests, fcs):
                     midx[k] = len(mols)
                     mols.append(ent['g'])
                 pairs.append([ai, midx[k]])
-                meta.append((fc, ent, impl, raw))
-        rep = ctx.model([{'op': 'c08.batch', 'asts': [fc.ast for fc in chunk], 'mols': mols, 'pairs': pairs}])[0]
+                meta.append((ai, fc, ent, impl, raw))
+        rep = ctx.model([{'op': 'c08.batch', 'asts': [fc.ast for fc in chunk], 'texts': [cps(fc.text) for fc in chunk],
+                          'mols': mols, 'pairs': pairs}])[0]
         if not all(rep['wf']):
             raise common.MachineryError('a generated molecule graph is not well-formed for the model')
-        for fc, rs in zip(chunk, rep['reads']):
-            ctx.count('corr_c08.read')
+        for fc, rs, ts, same, tree in zip(chunk, rep['reads'], rep['treads'], rep['tsame'], rep['ttree']):
+            # --- tree path (the implementation's own tree through the reader model)
+            impl_s = impl_summary(fc.q) if fc.read == 'ok' else None
+            icls = 'internal' if fc.read.startswith('internal:') else fc.read
+            if rs is not None:
+                ctx.count('corr_c08.read')
+                if fc.read == 'ok':
+                    if 'err' in rs or any(rs.get(k) != impl_s[k] for k in impl_s):
+                        ctx.disagree('corr:c08.read', {'text': fc.text}, impl_s, rs)
+                else:
+                    mcls = rs.get('err')
+                    if mcls != icls and not (mcls is not None and fc.lenient):
+                        ctx.disagree('corr:c08.read', {'text': fc.text}, fc.read, rs)
+            # --- text path (parser model -> bridge -> reader model), against the implementation
+            ctx.count('corr_c08.read_text')
+            ctx.count('text_read_' + (ts.get('err') or 'ok'))
             if fc.read == 'ok':
-                impl_s = impl_summary(fc.q)
-                if 'err' in rs or any(rs.get(k) != impl_s[k] for k in impl_s):
-                    ctx.disagree('corr:c08.read', {'text': fc.text}, impl_s, rs)
+                if 'err' in ts or any(ts.get(k) != impl_s[k] for k in impl_s):
+                    ctx.disagree('corr:c08.read_text', {'text': fc.text}, impl_s, ts)
             else:
-                mcls = rs.get('err')
-                icls = 'internal' if fc.read.startswith('internal:') else fc.read
-                if mcls != icls and not (mcls is not None and fc.lenient):
-                    ctx.disagree('corr:c08.read', {'text': fc.text}, fc.read, rs)
-        for (fc, ent, impl, raw), r in zip(meta, rep['res']):
+                if ts.get('err') != icls:
+                    ctx.disagree('corr:c08.read_text', {'text': fc.text}, fc.read, ts)
+                elif icls == 'syntax' and [ts.get('line'), ts.get('col')] != impl_syntax_pos(fc.text):
+                    ctx.disagree('corr:c08.read_text', {'text': fc.text}, {'syntax': impl_syntax_pos(fc.text)}, ts)
+            # --- the two paths against each other: same tree (parser model + bridge = implementation's parser), same query
+            if fc.ast is not None:
+                ctx.count('corr_c08.text_tree')
+                if not tree:
+                    ctx.disagree('corr:c08.text_tree', {'text': fc.text}, {'impl_tree': fc.ast}, {'model_text_path': ts})
+                elif not same:
+                    ctx.disagree('corr:c08.read_text', {'text': fc.text, 'note': 'same tree, different query: driver inconsistency'}, rs, ts)
+        for (ai, fc, ent, impl, raw), r in zip(meta, rep['res']):
+            inp = {'text': fc.text, 'molecule': ent['name'], 'graph': ent['g']}
+            # text path: either the query is structurally the one of the tree path (then `m` is its result too) or `tm`/`terr`
+            ctx.count('corr_c08.match_text')
+            if 'terr' in r:
+                ctx.disagree('corr:c08.match_text', inp, impl, r['terr'])
+            elif 'tm' in r:
+                if [tuple(t) for t in r['tm']] != impl:
+                    ctx.disagree('corr:c08.match_text', inp, impl, r['tm'][:50])
+            elif not rep['tsame'][ai]:
+                raise common.MachineryError('driver reply lacks the text-path result of a pair')
+            if fc.ast is None:
+                continue
             ctx.count('corr_c08.match')
             ncmp += 1
-            inp = {'text': fc.text, 'molecule': ent['name'], 'graph': ent['g']}
             if 'err' in r:
                 ctx.disagree('corr:c08.match', inp, impl, r)
                 continue
@@ -454,6 +524,44 @@ def run_model(ctx, requests, fcs):
                                        'detail': '%s; RDKit candidate list = model enumerator on %d cases, %d differences' % (prev['detail'], ncmp, acand_bad)}
 
 
+def layout_group(ctx, frag, k):
+    """k random layouts of one fragment; counts how many (first, other) pairs fall under the proved layout theorem"""
+    ls = [RG.render_gaps(frag, ctx.rng) for _ in range(k)]
+    ls.append(RG.alike_variant(frag, ls[0][1], ls[0][2], ctx.rng))
+    for (_, _, g) in ls[1:]:
+        ctx.count('layout_pairs')
+        if RG.gaps_alike(ls[0][2], g):
+            ctx.count('layout_pairs_covered_by_C08_layout_irrelevant_partial')
+    return {'frag': frag, 'texts': [t for (t, _, _) in ls]}
+
+
+def run_layouts(ctx, groups):
+    """layout independence on both parsers: every text of a group is another random layout of one fragment; the model (parser
+    model + bridge + reader) must give the first text's tree and query for each, the implementation's parser the first text's
+    tree, and the model's reading must be the implementation's"""
+    if not ctx.driver_ok or not groups:
+        return
+    reqs = [{'op': 'c08.layouts', 'texts': [cps(t) for t in g['texts']]} for g in groups]
+    for g, rep in zip(groups, ctx.model(reqs)):
+        trees = []
+        for t in g['texts']:
+            try:
+                trees.append(lib_ast.parse_to_json(t))
+            except Exception as e:
+                trees.append(('exc', common.exc_class(e, exc_table())))
+        for k, t in enumerate(g['texts']):
+            ctx.count('layout_texts')
+            ctx.count('corr_c08.layouts')
+            if trees[k] != trees[0]:
+                ctx.violation('the layout of a fragment changes its parse tree', {'text': g['texts'][0], 'other': t, 'fragment': g['frag']},
+                              expected='the same tree', observed=trees[k] if isinstance(trees[k], tuple) else 'another tree')
+            if not rep['same'][k]:
+                ctx.disagree('corr:c08.layouts', {'text': g['texts'][0], 'other': t}, 'same tree and query for every layout (parser model)', rep['reads'][k])
+            ok_impl = not isinstance(trees[k], tuple)
+            if ok_impl != (rep['reads'][k].get('err') not in ('syntax', 'stuck', 'missingRule', 'hang', 'parserInternal')):
+                ctx.disagree('corr:c08.layouts', {'text': t}, trees[k] if not ok_impl else 'parsed', rep['reads'][k])
+
+
 # ---------------------------------------------------------------------------------------------- run
 def make_case(ctx, frag, origin, layout=True):
     text = RG.render(frag, ctx.rng if layout else None)
@@ -463,6 +571,8 @@ def make_case(ctx, frag, origin, layout=True):
         fc.ast = lib_ast.parse_to_json(text)
     except Exception:
         fc.ast = None
+    if fc.ast is None:
+        ctx.count('fragments_without_impl_tree')
     ctx.count('fragments')
     ctx.count('fragments_' + origin)
     ctx.count('read_' + fc.read)
@@ -474,6 +584,7 @@ def check_read(ctx, fc):
     """the fragment-level clause: a fragment the grammar and the property give a meaning to must be read"""
     if fc.read != fc.expected_read:
         if fc.expected_read == 'ok' and fc.read == 'internal:TypeError' and atomlabel_class(fc.frag):
+            # FM2 is `fixed` (repository commit e97afc2): the id is attached for the report only, a fixed entry excuses nothing
             ctx.violation('a well-formed fragment is not read (TypeError)', {'text': fc.text, 'fragment': fc.frag},
                           expected='ok', observed=fc.read, finding='FM2')
             return False
@@ -541,12 +652,7 @@ def merge_findings(ctx):
     p = os.path.join(common.VERIF, 'findings', 'C08.json')
     if os.path.exists(p):
         for e in json.load(open(p)):
-            ctx.known.setdefault(e['id'], e)
-
-
-def lowercase_supported():
-    q, cls = impl_read('fragment a{c labeled c1}')
-    return cls == 'ok'
+            ctx.known[e['id']] = e          # this property's own file wins over a stale entry of the shared list
 
 
 def run(ctx):
@@ -561,11 +667,9 @@ def run(ctx):
                                         % (len(pool.entries), ('; FAILED: %r' % pool.bad_graph[:3]) if pool.bad_graph else '')}
     if pool.bad_graph:
         raise common.MachineryError('assumption A-graph failed: %r' % (pool.bad_graph[:3],))
-    lower_ok = lowercase_supported()
-    fm2_present = impl_read('fragment a{C labeled AtomLabel C labeled x single bond to AtomLabel}')[1] == 'internal:TypeError'
-    ctx.count('label_AtomLabel_' + ('generated_FM2_present' if fm2_present else 'not_generated_guard_removed'))
-    ctx.count('lowercase_symbols_' + ('generated' if lower_ok else 'excluded_F22_pending'))
-    fcs, requests = [], []
+    # F22 (lower-case symbols) and FM2 (label `AtomLabel`) are repaired on the repository: both classes are generated
+    # unconditionally and a recurrence is a violation
+    fcs, requests, layout_groups = [], [], []
     # 1. bounded-exhaustive small fragments x sampled molecules
     small = RG.small_fragments(ctx.thorough())
     per_small = ctx.n(10, 60)
@@ -575,6 +679,7 @@ def run(ctx):
             break
         fc = make_case(ctx, frag, 'small', layout=False)
         fcs.append(fc)
+        layout_groups.append(layout_group(ctx, frag, 2))
         if not check_read(ctx, fc) or fc.read != 'ok':
             continue
         run_fragment(ctx, pool, fc, per_small, requests)
@@ -588,20 +693,24 @@ def run(ctx):
             frag = RG.stereo_fragment(rng)
         elif i % 40 == 7:
             frag = RG.dup_label_fragment(rng)
-        elif i % 200 == 9 and fm2_present:
+        elif i % 50 == 9:
             frag = RG.atomlabel_fragment(rng)
         else:
-            frag = RG.rand_fragment(rng, lower_ok=lower_ok)
+            frag = RG.rand_fragment(rng)
         fc = make_case(ctx, frag, 'random')
         fcs.append(fc)
         if not check_read(ctx, fc) or fc.read != 'ok':
             continue
         ents, res = run_fragment(ctx, pool, fc, per_rand, requests, extra_tries=6)
-        # 3. layout / label independence on the implementation itself (relational clause of the property)
-        if i % 4 == 0 and 'AtomLabel' not in RG.labels_of(frag):
+        # further random layouts of the same fragment: parse tree and query must not depend on them (both parsers)
+        layout_groups.append(layout_group(ctx, frag, 1 + ctx.n(2, 3)))
+        # 3. layout / label independence on the implementation itself (relational clause of the property); the renamed and
+        # re-laid-out fragment is also a case of its own (oracle, tree path and text path of the model)
+        if i % 4 == 0:
             g2 = RG.relabel(frag, rng)
-            t2 = RG.render(g2, rng)
-            q2, r2 = impl_read(t2)
+            fc2 = make_case(ctx, g2, 'relabelled')
+            fcs.append(fc2)
+            t2, q2, r2 = fc2.text, fc2.q, fc2.read
             ctx.count('relabel_relayout_checks')
             if r2 != 'ok':
                 ctx.violation('the same fragment with other label names / layout is not read', {'text': fc.text, 'other': t2}, 'ok', r2)
@@ -611,6 +720,7 @@ def run(ctx):
                     if a != b:
                         ctx.violation('label names or layout change the matches', {'text': fc.text, 'other': t2, 'molecule': ent['name']},
                                       expected=a[:50] if isinstance(a, list) else a, observed=b[:50] if isinstance(b, list) else b)
+                    check_pair(ctx, fc2, ent, requests, selfcheck=False)
     # all random molecules exhaustively against a few central fragments (every small molecule is used at least once)
     core = [make_case(ctx, f, 'core', layout=False) for f in core_fragments()]
     fcs += core
@@ -632,6 +742,7 @@ def run(ctx):
             ctx.count('dense_pairs')
             check_pair(ctx, fc, ent, requests, selfcheck=False)
     run_model(ctx, requests, fcs)
+    run_layouts(ctx, layout_groups)
     reach_floor(ctx)
 
 
@@ -671,7 +782,7 @@ REACH = (['hit_suffix_' + s for s in ['none', '+', '-', '.', ':', '+.', '-.', '?
          ['hit_prefix_' + p for p in RG.ATOM_PREFIX] +
          ['hit_bond_' + b for b in RG.BONDS] +
          ['hit_molprefix_' + p for p in RG.CHARGE_PREFIX + RG.KIND_PREFIX + RG.RING_PREFIX] +
-         ['hit_sym_' + s for s in RG.CLASS_SYMS + ['element']] +
+         ['hit_sym_' + s for s in RG.CLASS_SYMS + ['element', 'lower']] + ['hit_label_AtomLabel', 'hit_bond_to_AtomLabel'] +
          ['hit_cons_%s%s_%s' % (n, f, o) for n in ('', '!') for f in ('conn', 'ringsize', 'radical', 'nring') for o in ('>', '<', '>=', '<=', '=', 'noop')] +
          ['hit_cons_conn_default', 'hit_cons_!conn_default'] +
          ['hit_connbond_' + b for b in RG.BONDS + ['default']])
@@ -682,6 +793,8 @@ def reach_floor(ctx):
     if ctx.stats.get('stopped_early_time') or ctx.violations or ctx.disagreements or ctx.broken:
         return
     missing = [k for k in REACH if not ctx.stats.get(k)]
+    if ctx.driver_ok and ctx.stats.get('text_read_ok', 0) < 1000:
+        missing.append('text_read_ok>=1000 (texts accepted by the parser model and read by the reader model)')
     ctx.extra.setdefault('coverage', {})['reach_missing'] = missing
     if missing and not ctx.searching:
         raise common.MachineryError('generator reach below the floor: no pair with embeddings for %s' % missing[:10])
